@@ -478,19 +478,21 @@ class CodeBuilder:
             if filtered_fields:
                 forbid_extra_keys_lines = CodeLines()
                 if config.forbid_extra_keys:
-                    allowed_keys = {f[1] or f[0] for f in filtered_fields}
+                    allowed_keys = {
+                        f[0] if f[1] is None else f[1] for f in filtered_fields
+                    }
 
                     # If a discriminator with a field is set via config,
                     # we should allow this field to be present in the input
                     # This will not work for annotated discriminators though...
                     discr = self.get_discriminator(look_in_parents=True)
-                    if discr and discr.field:
+                    if discr and discr.field is not None:
                         allowed_keys.add(discr.field)
 
                     if config.allow_deserialization_not_by_alias:
                         allowed_keys |= {f[0] for f in filtered_fields}
 
-                    allowed_keys_str = "'" + "', '".join(allowed_keys) + "'"
+                    allowed_keys_str = ", ".join(map(repr, allowed_keys))
 
                     # emitted inside the try block below so that a non-mapping
                     # argument is reported as ValueError like everywhere else
@@ -909,7 +911,7 @@ class CodeBuilder:
                     fname, ftype, config, force_value
                 )
                 packers[fname] = packer
-                if alias:
+                if alias is not None:
                     aliases[fname] = alias
                 if could_be_none:
                     nullable_fields.add(fname)
@@ -1008,7 +1010,7 @@ class CodeBuilder:
                             packer if packer != "value" else f"self.{fname}",
                         )
                     )
-                kwargs = ", ".join(f"'{k}': {v}" for k, v in kwargs_parts)
+                kwargs = ", ".join(f"{k!r}: {v}" for k, v in kwargs_parts)
                 kwargs = f"{{{kwargs}}}"
             post_serialize = self.get_declared_hook(__POST_SERIALIZE__)
             if self.encoder is not None:
@@ -1074,7 +1076,7 @@ class CodeBuilder:
     ) -> None:
         if by_alias_feature and alias is not None:
             with self.indent("if by_alias:"):
-                self.add_line(f"kwargs['{alias}'] = {packed_value}")
+                self.add_line(f"kwargs[{alias!r}] = {packed_value}")
             with self.indent("else:"):
                 self.add_line(f"kwargs['{fname}'] = {packed_value}")
         else:
@@ -1085,7 +1087,7 @@ class CodeBuilder:
                 fname_or_alias = alias
             else:
                 fname_or_alias = fname
-            self.add_line(f"kwargs['{fname_or_alias}'] = {packed_value}")
+            self.add_line(f"kwargs[{fname_or_alias!r}] = {packed_value}")
 
     def _add_pack_method_with_dialect_lines(self, method_name: str) -> None:
         packer_args = ", ".join(
@@ -1378,31 +1380,32 @@ class FieldUnpackerCodeBlockBuilder:
             and self.parent.get_config().allow_deserialization_not_by_alias
         ):
             if unpacked_value != "value":
-                self.add_line(f"value = d.get('{alias}', MISSING)")
+                self.add_line(f"value = d.get({alias!r}, MISSING)")
                 with self.indent("if value is MISSING:"):
                     self.add_line(f"value = d.get('{fname}', MISSING)")
                 packed_value = "value"
             elif has_default:
-                self.add_line(f"value = d.get('{alias}', MISSING)")
+                self.add_line(f"value = d.get({alias!r}, MISSING)")
                 with self.indent("if value is MISSING:"):
                     self.add_line(f"value = d.get('{fname}', MISSING)")
                 packed_value = "value"
             else:
-                self.add_line(f"__{fname} = d.get('{alias}', MISSING)")
+                self.add_line(f"__{fname} = d.get({alias!r}, MISSING)")
                 with self.indent(f"if __{fname} is MISSING:"):
                     self.add_line(f"__{fname} = d.get('{fname}', MISSING)")
                 packed_value = f"__{fname}"
                 unpacked_value = packed_value
         else:
+            key = fname if alias is None else alias
             if unpacked_value != "value":
-                self.add_line(f"value = d.get('{alias or fname}', MISSING)")
+                self.add_line(f"value = d.get({key!r}, MISSING)")
                 packed_value = "value"
             elif has_default:
-                self.add_line(f"value = d.get('{alias or fname}', MISSING)")
+                self.add_line(f"value = d.get({key!r}, MISSING)")
                 packed_value = "value"
             else:
                 self.add_line(
-                    f"__{fname} = d.get('{alias or fname}', MISSING)"
+                    f"__{fname} = d.get({key!r}, MISSING)"
                 )
                 packed_value = f"__{fname}"
                 unpacked_value = packed_value
